@@ -311,6 +311,14 @@ Print Assumptions C02_orderly_close_fin_ack.
                                      TIME-WAIT state; once an endpoint's main loop has exited it ignores every
                                      segment, so if its last ACK is lost the peer retransmits its FIN nine times
                                      and then resets (witness: A first, 75 + 5 bytes, A's frame 6)
+     C02_closing_window_drops_outcome_bounded
+                                     BOUNDED-DOMAIN theorem for a connection whose receiver's window CLOSES during
+                                     the transfer (64-byte receive buffer; 4 close orders x w1 in {64, 65, 80, 100
+                                     in two chunks} x w2 in {0, 5} x the same 301 drop sets = 9 632 runs, so the
+                                     drop sets also hit window updates): every run ends within the budget either
+                                     with everything delivered and closed/closed (or the final-ACK failure) or in
+                                     the KNOWN zero-window stall (an endpoint connected with data queued behind a
+                                     zero window, nothing in flight, no timer)
      C02_window_update_drop_stalls_refuted
                                      the KNOWN finding C02-zero-window-stall on two endpoints: a 64-byte receive
                                      buffer, 80 bytes written, the window-reopening ACK dropped - both endpoints
@@ -374,3 +382,16 @@ Theorem C02_window_update_drop_stalls_refuted :
     len (a_rd (p_appB p)) = 64 /\ len (a_wr (p_appA p)) = 80.
 Proof. exact window_update_drop_stalls_refuted. Qed.
 Print Assumptions C02_window_update_drop_stalls_refuted.
+
+Theorem C02_closing_window_drops_outcome_bounded :
+  forall sc ds, In sc zw_scens -> In ds (drop_sets K) ->
+  let p := pump_run budget orc (fst zw_pair) (snd zw_pair) sc ds in
+  p_done p = true /\
+  ((a_rd (p_appB p) = a_wr (p_appA p) /\ a_rd (p_appA p) = a_wr (p_appB p) /\
+    a_eof (p_appA p) = true /\ a_eof (p_appB p) = true /\
+    ((estate (sA (p_sys p)) = stClosed /\ estate (sB (p_sys p)) = stClosed /\
+      no_rst (oA (p_sys p)) = true /\ no_rst (oB (p_sys p)) = true)
+     \/ (lost_final p ds = true /\ explicit_failure p = true)))
+   \/ (zw_stalled (sA (p_sys p)) = true \/ zw_stalled (sB (p_sys p)) = true)).
+Proof. exact closing_window_drops_outcome_bounded. Qed.
+Print Assumptions C02_closing_window_drops_outcome_bounded.
